@@ -123,6 +123,7 @@ def _explore_chunk(arg):
             out[status] += 1
     out["stats"] = stats.as_dict()
     out["funcs"] = dict(I.FUNCS_SEEN)
+    out["lines"] = [list(k) for k in I.LINES_SEEN]
     return out
 
 
@@ -144,6 +145,7 @@ class Result:
         self.queries = []
         self.stats = {"sat": 0, "unsat": 0, "unknown": 0, "solver_time_s": 0.0, "max_query_s": 0.0}
         self.funcs = {}
+        self.lines = set()
         self.exhausted = True
         self.wall = 0.0
         self.maxdepth = 0
@@ -167,6 +169,8 @@ class Result:
             else:
                 self.stats[k] += o["stats"][k]
         self.funcs.update(o["funcs"])
+        for fl, ln in o.get("lines") or ():
+            self.lines.add((fl, ln))
         self.maxdepth = max(self.maxdepth, o["maxdepth"])
 
 
@@ -298,11 +302,12 @@ def _explorer(h, forker, seed):
     stats = Stats()
     p = Path((), timeout_ms=h.timeout_ms, stats=stats)
     p.forker = forker
-    state = {"funcs": len(I.FUNCS_SEEN), "dec0": 0}
+    state = {"funcs": len(I.FUNCS_SEEN), "dec0": 0, "lines": len(I.LINES_SEEN)}
 
     def on_child():
         stats.reset()
         state["funcs"] = len(I.FUNCS_SEEN)
+        state["lines"] = len(I.LINES_SEEN)
         state["dec0"] = len(p.decisions)
     forker.child_hooks.append(on_child)
     w = World(p)
@@ -331,6 +336,8 @@ def _explorer(h, forker, seed):
                 rec["query"] = p.queries[-1]
         if len(I.FUNCS_SEEN) > state["funcs"]:
             rec["funcs"] = dict(list(I.FUNCS_SEEN.items())[state["funcs"]:])
+        if len(I.LINES_SEEN) > state["lines"]:
+            rec["lines"] = [list(k) for k in list(I.LINES_SEEN)[state["lines"]:]]
     except BaseException as exc:  # never fall back into the caller's stack
         rec = {"status": "inconclusive",
                "inc": {"harness": h.name, "kind": "ExplorerException",
@@ -413,6 +420,8 @@ def explore_fork(hidx, workers, deadline, max_paths, seed):
         if "query" in rec and len(res.queries) < 24:
             res.queries.append(rec["query"])
         res.funcs.update(rec.get("funcs") or {})
+        for fl, ln in rec.get("lines") or ():
+            res.lines.add((fl, ln))
 
     def reap(block=False):
         nonlocal crashed
@@ -692,6 +701,10 @@ def evidence(prop, tier, seed, results, validated, ss, wall, verdict, known_seen
     for r in results:
         funcs.update(r.funcs)
     q = {k: sum(r.stats[k] for r in results) for k in ("sat", "unsat", "unknown")}
+    lines = {}
+    for r in results:
+        for fl, ln in r.lines:
+            lines.setdefault(os.path.relpath(fl, os.environ.get("VERIF_REPO", "/repo")), set()).add(ln)
     cov = {
         "states": max(1, sum(r.held + len(r.violations) for r in results)),
         "transitions": max(1, sum(r.decisions for r in results)),
@@ -718,6 +731,7 @@ def evidence(prop, tier, seed, results, validated, ss, wall, verdict, known_seen
         } for r in results],
         "functions_encoded": [{"function": k, "file": v[0], "source_sha1": v[1]}
                               for k, v in sorted(funcs.items())],
+        "statements_executed": {k: sorted(v) for k, v in sorted(lines.items())},
         "queries": q,
         "solver": "z3 5.1.0 (python API), per-query timeout "
                   f"{max(r.harness.timeout_ms for r in results)} ms",
